@@ -9,7 +9,7 @@ From JsonSyntax Require Import Base.Prelude Base.Value Base.Unicode Model.Kind S
   Model.Printer Spec.Minimal Spec.Layout Model.Unordered Spec.Multimap
   Base.Float64 Spec.EcmaNumber Spec.Jcs Model.Canon
   Spec.NumSpelling Spec.SerdeData Spec.SerdeJsonValue Spec.SerdeRoundTrip Model.SerdeValue
-  Model.Macro Model.MacroFloat Spec.MacroDoc.
+  Model.Macro Model.MacroFloat Spec.MacroDoc Spec.SerdeTyped Model.Serde.
 
 Extraction Language OCaml.
 Set Extraction KeepSingleton.
@@ -53,4 +53,9 @@ Extraction "model.ml"
   to_value from_value from_text from_sj into_sj ser_spec de_ok detour_ok collapse nodup_keysb
   nums64 wf_nums wf_sj sj_eqb K1 K2 K3 K4 K5 K6 dbl valid_number is_int64 num_pres
   (* json! macro *)
-  expand tokens text value_of lexical_f64 dec_of_Z.
+  expand tokens text value_of lexical_f64 dec_of_Z
+  (* serde, typed data (C16) *)
+  to_value_ref from_value_ref ser_sj from_sj_ref shape_ref shape_sj_ref shape_eqb has_type finite_floats
+  tser de from_tsj shape_of shape_of_sj fmt_f64_ref fmt_f32_ref fmt_sj_ref de_f64 de_f32 f64_norm f32_norm
+  num_key key_of_f64 nkey_eqb f64_of_f32 f32_of_f64 f32_dr k2_class
+  no_f32 known_class norm sort_maps num_event lossy_ref tsd_eqb null_like.
